@@ -146,3 +146,9 @@ package api
 //@ spec func samePin(p Pin, q Pin) bool = q.Cid == p.Cid && q.Type == p.Type && len(q.Allocations) == len(p.Allocations) && (forall i int :: 0 <= i && i < len(p.Allocations) ==> q.Allocations[i] == p.Allocations[i]) && q.MaxDepth == p.MaxDepth && (q.Reference == nil <==> p.Reference == nil) && (p.Reference != nil ==> *q.Reference == *p.Reference) && q.ReplicationFactorMin == p.ReplicationFactorMin && q.ReplicationFactorMax == p.ReplicationFactorMax && q.Name == p.Name && q.ShardSize == p.ShardSize && q.Metadata == p.Metadata && q.PinUpdate == p.PinUpdate && q.Mode == p.Mode && len(q.Origins) == len(p.Origins) && (forall i int :: 0 <= i && i < len(p.Origins) ==> maEqual(q.Origins[i], p.Origins[i])) && (p.ExpireAt == zerotime() || p.ExpireAt == unixZero ==> q.ExpireAt == zerotime()) && (p.ExpireAt != zerotime() && p.ExpireAt != unixZero ==> unixSecs(q.ExpireAt) == unixSecs(p.ExpireAt))
 //@ lemma pin_protobuf_roundtrip: forall p Pin, b pb.Pin, o pb.PinOptions, q Pin, q0 Pin :: libraryInverses() && wellFormedPin(p) && q0.PinUpdate == cid.Undef && q0.ExpireAt == zerotime() && pbEncodes(b, o, p) && pbDecodes(b, o, q, q0) ==> samePin(p, q)
 //@   property C08
+
+// ---- "every record exchanged between peers and clients ... decodes to an equal value": type obligations ----
+// every field of every exchanged record has a static type the msgpack (RPC, Raft log) and JSON (REST, export) codecs
+// can decode into
+//@ directive codec Pin PinPath PinInfo GlobalPinInfo ID IPFSID Version ConnectGraph Metric Alert Error NodeWithMeta IPFSRepoStat IPFSRepoGC RepoGC GlobalRepoGC AddedOutput AddParams
+//@   property C08
